@@ -429,6 +429,32 @@ def rule_typegraph(check):
             check.bad(R, key, "src/visitor/operation_transform_visitor.rs", "%s.%s is instrumented with temporaries of the enclosing block although %s" % (adt.split("::")[-1], field, why))
 
 
+def rule_declare_first(check):
+    R = "DECLARE-FIRST"
+    check.rule(R, "the injected `let` is the first statement after the directive prologue of its block - its index is exactly the number of leading directives - so it precedes every statement that can assign or read a temporary (a `let` placed later leaves its temporaries in the temporal dead zone)")
+    prog = check.prog
+    from . import c07
+
+    iv = prog.fn("block_transform_visitor::insert_variable_declaration")
+    sites = [n for g in prog.flat(iv, 2) for n in g.nodes() if n.get("k") == "MethodCall" and n["method"] in ("insert", "splice") and "Vec<" in (hir.peel(n["recv"]).get("ty") or "")]
+    owners = {id(n): g for g in prog.flat(iv, 2) for n in g.nodes()}
+    check.floor(R, "insertions of the declaration", len(sites), 1)
+    for n in sites:
+        g = owners[id(n)]
+        idx = n["args"][0]
+        if n["method"] == "splice":
+            idx = c07._empty_range(idx)
+        c07._PRED_CTX["prog"] = prog
+        c07._PRED_CTX["fn"] = g
+        idiom, pcs, src = c07.index_idiom(prog, g, idx) if idx is not None else (None, set(), None)
+        if idiom is None and idx is not None:
+            # position(!p).unwrap_or(len) and friends are judged by C07's VALUESET; here only the
+            # idiom that is known to overshoot matters
+            check.ok(R, R + "/" + g.name, hir.loc(n), "index is not computed from the last matching statement")
+            continue
+        check.expect(idiom == "exact", R, R + "/" + g.name, hir.loc(n), "declaration index = number of leading directives", "the declaration is inserted after the *last* string-literal statement of the block, not after the leading directives: statements between them use the temporaries before the `let` (ReferenceError)")
+
+
 def rule_refusal(check):
     R = "REFUSAL-GATE"
     check.rule(R, "the `let` is inserted only when no user identifier with the reserved prefix was seen in the block; otherwise the rewrite is cancelled (and transform_js turns Cancelled into Err); the collision check sees every identifier handed to visit_mut_ident")
@@ -547,6 +573,7 @@ def rule_counter(check):
 def run(check):
     check.guarded("COUNTER", rule_counter)
     check.guarded("DECLARE-PATH", rule_declare_path)
+    check.guarded("DECLARE-FIRST", rule_declare_first)
     check.guarded("RESET-DISCIPLINE", rule_reset)
     check.guarded("TYPEGRAPH", rule_typegraph)
     check.note("TRAV-IDENT: Expr::Arrow.0.body is not a hole: ARROW-BLOCK (C04) turns it into a block that the block driver visits with its own provider")
